@@ -2,6 +2,7 @@ import Gallia.Proofs.Lemmas.HsfzSys
 import Gallia.Proofs.Lemmas.HsfzOrder
 import Gallia.Proofs.Lemmas.HsfzRun
 import Gallia.Proofs.Lemmas.HsfzSysExec
+import Gallia.Proofs.Lemmas.HsfzSysTrace
 import Gallia.Gen.C07Hsfz
 /-
   C07 — HSFZ: frames are demultiplexed correctly under any segmentation and interleaving.
@@ -574,6 +575,79 @@ theorem hsfz_write_outcomes_sys (cfg : Cfg) (yields : Wire → Bool) (ops0 : Lis
   · have := c h hlt
     rw [← hS'] at this
     exact this
+
+/-- **frames with `Len < 2` never desynchronise the stream.**  For every event list and schedule the frames the reader
+    task has handled (its own trace), followed by the frames still complete in the receive buffer (connection closed
+    meanwhile / stream ended / not yet connected), are exactly the frames of the byte stream, in order - short frames
+    (no address header, any control word) are handled as one frame each and the frames behind them are cut as without
+    them (`short_frames_consumed` gives the right-hand side for a stream of encoded frames).  On an established, open
+    connection whose stream is alive every frame received has been handled. -/
+theorem hsfz_short_frames_consumed (cfg : Cfg) (yields : Wire → Bool) (ops : List HsfzSys.Op) :
+    HsfzSys.rxWires (HsfzSys.exec cfg yields {} ops).tr ++
+        (parseAll hsfzCutter ((HsfzSys.exec cfg yields {} ops).core.buf ++ (HsfzSys.exec cfg yields {} ops).pre)).1 =
+      (parseAll hsfzCutter (HsfzSys.fedBytes ops)).1 ∧
+    ((HsfzSys.exec cfg yields {} ops).connected = true →
+      ((HsfzSys.exec cfg yields {} ops).core.closed || (HsfzSys.exec cfg yields {} ops).core.eof) = false →
+      HsfzSys.rxWires (HsfzSys.exec cfg yields {} ops).tr = (parseAll hsfzCutter (HsfzSys.fedBytes ops)).1) := by
+  have h := (HsfzSys.exec_trace cfg yields ops {} (fun h => by cases h)).1 []
+  have h1 : HsfzSys.rxWires (HsfzSys.exec cfg yields {} ops).tr ++
+        (parseAll hsfzCutter ((HsfzSys.exec cfg yields {} ops).core.buf ++ (HsfzSys.exec cfg yields {} ops).pre)).1 =
+      (parseAll hsfzCutter (HsfzSys.fedBytes ops)).1 := by
+    simpa [HsfzSys.rxAll, HsfzSys.rxWires] using h
+  refine ⟨h1, fun hc ho => ?_⟩
+  have hp := HsfzSys.exec_preOk cfg yields ops {} (fun h => by cases h) hc
+  have hq := (HsfzSys.exec_hinv cfg yields ops {} HInv_init).quiet ho
+  rw [← h1, hp, List.append_nil, parseAll_none hsfzCutter (by simpa [hsfzCutter] using hq)]
+  simp
+
+/-- **alive checks are always answered** (whole-execution part on the reader task's own trace; the remaining link -
+    that the replies among the bytes written are, one each and in order, those of the trace with the instants of the
+    events that completed the requests - is proved per reader-task run: `alive_immediate`).
+    For every event list and schedule: every alive check the reader task has handled is followed by its reply before
+    the next frame is handled, and the handled frames are all the stream's frames (`hsfz_short_frames_consumed`), so on
+    an open connection every alive check received has been answered; the reply is written by the reader-task step
+    itself (`deliver`) at the current instant, carries the tester address in two bytes, and does not depend on the
+    client's phase (idle, waiting for an ack and holding the write mutex, blocked in a read). -/
+theorem hsfz_alive_always_answered_partial (cfg : Cfg) (yields : Wire → Bool) (ops : List HsfzSys.Op) :
+    HsfzSys.answered (HsfzSys.exec cfg yields {} ops).tr = true ∧
+    (∀ (c : Sys) (cl : Client) (w : Wire), w.cw = cwAlive →
+      (deliver cfg { c with client := cl } w).out = c.out ++ [(c.now, [0, 0, 0, 2, 0, 0x12, 0, cfg.src])]) := by
+  refine ⟨(HsfzSys.exec_trace cfg yields ops {} (fun h => by cases h)).2 rfl, fun c cl w hw => ?_⟩
+  rw [deliver_out, alive_reply_bytes]; simp [hw]
+
+/-- **closed is final and fails fast** (with `hsfz_write_outcomes_sys` / `error_word_closes_read` /
+    `error_word_closes_write`: a control word other than data / ack / alive surfaces as a connection error to the call
+    that dequeues it and closes the connection).  Once an execution has closed the connection - by an error control
+    word, the ack timeout or the client's `close()` - whatever follows (`more`): it stays closed, no call is pending,
+    and a read / write issued then ends at the instant it starts (EBADFD / ConnectionResetError) and writes nothing -/
+theorem hsfz_error_word_closes_partial (cfg : Cfg) (yields : Wire → Bool) (ops more : List HsfzSys.Op)
+    (hc : (HsfzSys.exec cfg yields {} ops).core.closed = true) (t : Option Nat) (data : Bytes) :
+    (HsfzSys.exec cfg yields {} (ops ++ more)).core.closed = true ∧
+    (HsfzSys.exec cfg yields {} (ops ++ more)).core.client = .idle ∧
+    execOp cfg yields (HsfzSys.exec cfg yields {} (ops ++ more)).core (.read t) =
+      { (HsfzSys.exec cfg yields {} (ops ++ more)).core with
+        done := (HsfzSys.exec cfg yields {} (ops ++ more)).core.done ++ [((HsfzSys.exec cfg yields {} (ops ++ more)).core.now, .badFd)] } ∧
+    execOp cfg yields (HsfzSys.exec cfg yields {} (ops ++ more)).core (.write data t) =
+      { (HsfzSys.exec cfg yields {} (ops ++ more)).core with
+        done := (HsfzSys.exec cfg yields {} (ops ++ more)).core.done ++ [((HsfzSys.exec cfg yields {} (ops ++ more)).core.now, .connReset)] } := by
+  have h1 : (HsfzSys.exec cfg yields {} (ops ++ more)).core.closed = true := by
+    rw [HsfzSys.exec_append]; exact HsfzSys.exec_closed_mono cfg yields more _ hc
+  have h2 := (hsfz_closed_never_blocks cfg yields (ops ++ more)).1 h1
+  obtain ⟨a, b, _⟩ := closed_connection_refuses cfg yields _ h1 h2 t data []
+  exact ⟨h1, h2, a, b⟩
+
+/-- the hypotheses and shapes above are inhabited: bytes before `connect()` (a data frame, an alive check, a short
+    frame), a write acked behind a foreign frame, a read, `close()`, then calls on the closed connection -/
+example :
+    let cfg := HsfzSys.cfgOfUri 0xf4 0x10 none
+    let pre := encodeWire (.full cwData 0x10 0xf4 [0x62]) ++ encodeWire (.full cwAlive 0 0 []) ++ encodeWire (.short cwData [0xaa])
+    let S := HsfzSys.exec cfg (asyncioYields true) {}
+      [.feed pre, .connect, .write [0x3e, 0x00] none, .advance 7,
+       .feed (encodeWire (.full cwData 0x10 0xf5 [1]) ++ encodeWire (.full cwAck 0xf4 0x10 [0x3e, 0x00])), .read (some 40),
+       .close, .read none, .write [1] none]
+    S.core.done = [(7, .wrote 2), (7, .data [0x62]), (7, .badFd), (7, .connReset)] ∧ S.core.closed = true ∧
+    (HsfzSys.rxWires S.tr).length = 5 ∧ S.core.out.length = 2 := by
+  decide +kernel
 
 end WholeExecutions
 
